@@ -126,7 +126,8 @@ pub fn realnum_strcmp_with_sign(a: &str, a_neg: bool, b: &str, b_neg: bool) -> O
         _ => {}
     }
 
-    // Split at the decimal point; leading zeros of the integer part carry no value
+    // Split at the decimal point; leading zeros of the integer part and trailing
+    // zeros of the fraction carry no value
     let (a_int, a_frac) = split_realnum(a);
     let (b_int, b_frac) = split_realnum(b);
 
@@ -179,13 +180,16 @@ fn is_zero_magnitude(s: &str) -> bool {
     s.bytes().all(|c| c == b'0' || c == b'.')
 }
 
-// Helper: (integer part without leading zeros, fraction digits)
+// Helper: (integer part without leading zeros, fraction without trailing zeros)
 fn split_realnum(s: &str) -> (&str, &str) {
     let (int_part, frac_part) = match s.find('.') {
         Some(pos) => (&s[..pos], &s[pos + 1..]),
         None => (s, ""),
     };
-    (int_part.trim_start_matches('0'), frac_part)
+    (
+        int_part.trim_start_matches('0'),
+        frac_part.trim_end_matches('0'),
+    )
 }
 
 // Helper: validate real number string (digits and at most one dot)
